@@ -10,6 +10,7 @@ import Fbr.Lemmas.OvlNoUpper
 import Fbr.Lemmas.OvlSimLookup
 import Fbr.Lemmas.OvlSimRO
 import Fbr.Lemmas.OvlOps
+import Fbr.Lemmas.OvlAll
 
 namespace Fbr.Thm.C10
 open Fbr.Ovl
